@@ -1,6 +1,6 @@
 (* Dispatcher from check id to check function. *)
 From Coq Require Import ZArith List Bool.
-From DG Require Import CaseFormat Check20 Check01 Check04 Check19.
+From DG Require Import CaseFormat Check20 Check01 Check04 Check19 Check11.
 Import ListNotations.
 Local Open Scope Z_scope.
 
@@ -8,6 +8,7 @@ Definition check_case (id : Z) (fs : list field) : verdict :=
   if id =? 101 then check_101 fs else
   if id =? 102 then check_102 fs else
   if id =? 401 then check_401 fs else
+  if id =? 1101 then check_1101 fs else
   if id =? 1901 then check_1901 fs else
   if id =? 1902 then check_1902 fs else
   if id =? 1903 then check_1903 fs else
